@@ -137,6 +137,9 @@ func genEncImage(env *Env, key []byte) encImage {
 			regs = append(regs, [2]uint32{uint32(2 * i), uint32(2*i + 1)})
 		}
 		nsec = 2*n + 2
+		if n <= 255 { // a well-formed map may describe more than the file holds: keep these images small
+			nsec = 24 + r.Intn(40)
+		}
 		plain = make([]byte, nsec*2048+tail)
 		r.Read(plain)
 	case 0:
